@@ -350,6 +350,18 @@ pub fn run_terms(ch: &mut Choices, verbose: bool) -> TermsReport {
 
     // ---- workload ----
     let d0 = gen_desc(ch, &gp, 0, false);
+    // half of the huge containers sit inside another unordered compound or a symmetric statement
+    // (only then does their hash decide a comparison)
+    let d0 = if huge && ch.chance(1, 2) {
+        let extra = Desc::Atom(A_WORD, "outer".into());
+        match ch.choose(3) {
+            0 => Desc::Set(ch.choose(N_SET as u32) as u8, vec![d0, extra]),
+            1 => Desc::Sym(ch.choose(N_SYM as u32) as u8, Box::new(d0), Box::new(extra)),
+            _ => Desc::Set(S_SET_EXT, vec![Desc::Seq(Q_PRODUCT, vec![d0, extra.clone()]), extra]),
+        }
+    } else {
+        d0
+    };
     stats.desc_nodes = size(&d0) as u64;
     let c0 = canon(&d0);
     stats.nested_unordered = has_nested_unordered(&c0, false);
